@@ -55,8 +55,8 @@ def run(ctx):
         (r"^radicle::cob::issue::IssueMut::transaction$", r"store::Transaction.*::commit$", r"cache::Update.*::update$", "IssueMut::transaction"),
         (r"^radicle::cob::patch::Patches::_create$", r"store::Transaction.*::initial$", r"cache::Update.*::update$", "Patches::create/draft"),
         (r"^radicle::cob::issue::Issues::create$", r"store::Transaction.*::initial$", r"cache::Update.*::update$", "Issues::create"),
-        (r"^radicle::cob::patch::cache::Cache::remove$", r"cob::store::Store::remove$|cob::patch::Patches::remove$", r"cache::Remove.*::remove$", "patch Cache::remove"),
-        (r"^radicle::cob::issue::cache::Cache::remove$", r"cob::store::Store::remove$|cob::issue::Issues::remove$", r"cache::Remove.*::remove$", "issue Cache::remove"),
+        (r"^radicle::cob::patch::cache::Cache::remove$", r"cob::store::Store::remove$|cob::patch::Patches::remove$", r"cache::Remove.*::remove$|cache::Update.*::update$", "patch Cache::remove"),
+        (r"^radicle::cob::issue::cache::Cache::remove$", r"cob::store::Store::remove$|cob::issue::Issues::remove$", r"cache::Remove.*::remove$|cache::Update.*::update$", "issue Cache::remove"),
     ):
         fs = db.find(pat)
         if len(fs) != 1:
@@ -64,6 +64,24 @@ def run(ctx):
             continue
         n += 1
         pass_ok(ctx, db, fs[0], "pair:%s" % what, a, b, what)
+    # removing our own ref does not remove the object if other peers still have theirs: the cache row may go only when the
+    # store no longer yields the object (as update_or_remove does after a fetch)
+    for mod in ("patch", "issue"):
+        f = db.one(r"^radicle::cob::%s::cache::Cache::remove$" % mod)
+        if f is None:
+            continue
+        rem = rules.call_blocks(f, r"cache::Remove.*::remove$")
+        GET = re.compile(r"(Store|Patches|Issues)::get\(")
+        absent = lambda x: x[0] == "variant" and x[4] and x[3] in ("None", "Err") and bool(GET.search(nshow(x[1])))
+        ok, a, bad = rules.dom_check(db, f, rem, absent)
+        ctx.check("dom:%s:Cache::remove:absent" % mod, bool(ok and a and rem),
+                  "the cache row of a removed %s is deleted only if the store no longer yields the object (other peers' refs may keep it alive; "
+                  "direct evaluation then still returns it)" % mod, rules.where(f, rem[0] if rem else None),
+                  detail={"path": list(bad.values())[:1]}, fn=f)
+        upd = rules.call_blocks(f, r"cache::Update.*::update$")
+        ok2, a2, _ = rules.dom_check(db, f, upd, lambda x: x[0] == "variant" and x[4] and x[3] == "Some" and bool(GET.search(nshow(x[1]))))
+        ctx.check("dom:%s:Cache::remove:refresh" % mod, bool(ok2 and a2 and upd),
+                  "if the object still exists after our ref was removed, the cache row is refreshed from the store", rules.where(f), fn=f)
     # create/draft delegate to _create
     for nm in ("create", "draft"):
         f = db.one(r"^radicle::cob::patch::Patches::%s$" % nm)
